@@ -45,11 +45,10 @@ theorem readBe32_be32 (n : Nat) (h : n < 4294967296) :
       (UInt8.ofNat (n / 256 % 256)) (UInt8.ofNat (n % 256)) = n := by
   simp only [readBe32, toNat_ofNat_mod]; omega
 
-/-- Control-message round trip for every version byte and every payload whose
-    length fits the 32-bit prefix.  The receiver must be fresh or the payload
-    non-empty (the Go method leaves `Payload` untouched for length 0). -/
+/-- Control-message round trip for every version byte, every payload whose length
+    fits the 32-bit prefix, and every receiver object — fresh or used before. -/
 theorem msgdata_roundtrip (recv : MsgData) (v : UInt8) (p : Bytes)
-    (hlen : p.length < 4294967296) (hfresh : recv.payload = [] ∨ p ≠ []) :
+    (hlen : p.length < 4294967296) :
     MsgData.deserializeInto recv (MsgData.serialize ⟨v, p⟩) = .ok ⟨v, p⟩ := by
   have hb := readBe32_be32 p.length hlen
   simp only [MsgData.serialize, Nat.mod_eq_of_lt hlen]
@@ -59,15 +58,18 @@ theorem msgdata_roundtrip (recv : MsgData) (v : UInt8) (p : Bytes)
     simp [hp, h5]
   · have : p = [] := by cases p <;> simp_all
     subst this
-    rcases hfresh with h | h
-    · cases recv; simp_all
-    · exact absurd rfl h
+    simp
+
+/-- before repair (finding 19) the statement needed a fresh receiver: a used one kept
+    its old payload when a message without payload arrived -/
+theorem msgdata_reuse_counterexample :
+    MsgData.deserializeIntoOld ⟨1, [0xAA]⟩ (MsgData.serialize ⟨2, []⟩) = .ok ⟨2, [0xAA]⟩ := by decide
 
 theorem msgdata_canonical (b : Bytes) (m : MsgData)
     (h : MsgData.deserialize b = .ok m) (hlen : m.payload.length < 4294967296) :
     MsgData.deserialize (MsgData.serialize m) = .ok m := by
   cases m with
-  | mk v p => exact msgdata_roundtrip _ v p hlen (Or.inl rfl)
+  | mk v p => exact msgdata_roundtrip _ v p hlen
 
 example : MsgData.deserialize [7, 0, 0, 0, 2, 0xAA, 0xBB, 0xCC] = .ok ⟨7, [0xAA, 0xBB]⟩ := by decide
 
